@@ -746,7 +746,9 @@ func applyEdit(r *rng.R, s *Schema, kind string, ti int) bool {
 			return false
 		}
 		name := t.Name
-		if tableReferenced(s, name) {
+		if tableReferenced(s, name) && r.Chance(1, 3) {
+			// keep the (now dangling) foreign keys of the children: they are not part of the change set
+		} else if tableReferenced(s, name) {
 			if r.Bool() {
 				return false
 			}
